@@ -635,6 +635,7 @@ func (r *reporter) process() {
 		flush := !smet.set && len(mets) > 0
 		if flush || bytes+smet.size > r.freeBytes {
 			r.numMetrics.Add(int64(len(mets)))
+			verifYield("m3.process:counted")
 			mets = r.flush(mets)
 			bytes = 0
 
